@@ -16,6 +16,7 @@
   are proved for the patched variant. The JWT/EdDSA layer is modelled by the `Ticket` record, not verified.
 -/
 import SgeProofs.Lemmas.OvmDecision
+import SgeProofs.Lemmas.OvmExamples
 namespace Sge.Ovm
 
 /-! ## both variants, every state -/
@@ -236,24 +237,6 @@ theorem c14_one_vote_per_key (s : State) (hr : Reachable true s) (p : Proposal) 
 
 /-! ## code as it is: counter-examples (concrete histories evaluated by the kernel) -/
 
-/-- a ticket with a valid EdDSA signature of key `k` -/
-def tk {α : Type} (k : Key) (exp : Int) (pl : α) : Ticket α :=
-  { format := true, exp := exp, alg := true, signer := some k, payload := some pl }
-def opSubmit (now : Int) (k : Key) (keys : List Pem) (leader : Nat) : Int × Op :=
-  (now, .submit 0 (tk k (now + 100) { keys := keys, leader := leader }))
-def opVote (now : Int) (idx : Nat) (k : Key) (pid : Nat) (v : Nat) : Int × Op :=
-  (now, .vote idx (tk k (now + 100) { proposalId := pid, vote := v }))
-def mkP (id : Nat) (keys : List Pem) (leader : Nat) (votes : List (Pem × Vote)) (start : Int) : Proposal :=
-  { id := id, creator := 0, keys := keys, leader := leader, votes := votes, startTS := start, finishTS := 0,
-    result := .unspecified }
-
-/-- vault K0 K1 K2 K3 (canonical strings 0 8 16 24). Proposal 1 keeps K0 and replaces K1 K2 K3 by K4 K5 K6;
-    proposal 2 drops K0 and adds K7. K1 K2 K3 vote yes on both. -/
-def cx1 : List (Int × Op) :=
-  [ opSubmit 10 0 [0, 32, 40, 48] 0, opSubmit 10 1 [8, 16, 24, 56] 0,
-    opVote 20 1 1 1 2, opVote 20 2 2 1 2, opVote 20 3 3 1 2,
-    opVote 20 1 1 2 2, opVote 20 2 2 2 2, opVote 20 3 3 2 2 ]
-
 /-- C14.X1  Code as it is, votes of keys removed in the same end-block count (DESIGN §9.8): the end-block at
     t = 30 approves proposal 1 (vault becomes K0 K4 K5 K6) and then, still deciding against the vault read
     before the loop, approves proposal 2 although not one of its voters is registered any more; the vault ends
@@ -271,13 +254,6 @@ theorem c14_asis_counterexample_removed_keys_same_block :
                            finishTS := 30, result := .approved }], count := 2 }, ?_⟩
   decide
 
-/-- the same two proposals, but proposal 1 is approved one block earlier -/
-def cx2a : List (Int × Op) :=
-  [ opSubmit 10 0 [0, 32, 40, 48] 0, opSubmit 10 1 [8, 16, 24, 56] 0,
-    opVote 20 1 1 1 2, opVote 20 2 2 1 2, opVote 20 3 3 1 2,
-    opVote 20 1 1 2 2, opVote 20 2 2 2 2,
-    (30, .endBlock) ]
-
 /-- C14.X2  Code as it is, votes of keys removed in an earlier block count: proposal 2 holds two yes votes
     (K1, K2) when proposal 1 is approved at t = 30 and removes K1 K2 K3; at t = 40 the new key K4 adds one
     yes vote, and the end-block approves proposal 2 with the yes vote of one of the four registered keys. -/
@@ -289,12 +265,6 @@ theorem c14_asis_counterexample_removed_keys_earlier_block :
       (step true (run true (genesis [0, 8, 16, 24]) (cx2a ++ [opVote 40 1 4 2 2])) 50 .endBlock).vault
         = [0, 32, 40, 48] := by
   decide
-
-/-- vault K0..K3. Proposal 1 adds K4 (five keys); proposal 2 replaces K3 by K5. K0 K1 K2 vote yes on both. -/
-def cx3 : List (Int × Op) :=
-  [ opSubmit 10 0 [0, 8, 16, 24, 32] 0, opSubmit 10 0 [0, 8, 16, 40] 0,
-    opVote 20 0 0 1 2, opVote 20 1 1 1 2, opVote 20 2 2 1 2,
-    opVote 20 0 0 2 2, opVote 20 1 1 2 2, opVote 20 2 2 2 2 ]
 
 /-- C14.X3  Code as it is, majority of the vault size before the block: after proposal 1 the vault has five
     keys, so proposal 2 needs ceil(10/3) = 4 yes votes at its decision; all three voters are still
@@ -313,16 +283,6 @@ theorem c14_asis_counterexample_stale_vault_size :
                            finishTS := 30, result := .approved }], count := 2 }, ?_⟩
   decide
 
-/-- genesis vault written as `pem.EncodeToMemory` writes it (strings 1 9 17 25 = K0..K3 with the trailing
-    newline). Proposal 1 re-lists the same four keys (a proposal stores trimmed strings 0 8 16 24); proposal 2
-    replaces K2 K3 by K4 K5. K0 votes yes on proposal 2 before and after proposal 1 is approved. -/
-def cx4 : List (Int × Op) :=
-  [ opSubmit 10 0 [0, 8, 16, 24] 0, opSubmit 10 0 [0, 8, 32, 40] 0,
-    opVote 20 0 0 1 2, opVote 20 1 1 1 2, opVote 20 2 2 1 2,
-    opVote 20 0 0 2 2,
-    (30, .endBlock),
-    opVote 40 0 0 2 2, opVote 40 1 1 2 2 ]
-
 /-- C14.X4  Code as it is, one key votes twice: the "already voted" test compares key strings, and the
     string under which K0 is registered changed when proposal 1 was approved. Proposal 2 then holds three yes
     votes of only two keys and is approved at t = 50; the patched model rejects the second vote of K0 and
@@ -337,10 +297,6 @@ theorem c14_asis_counterexample_double_vote :
       (step true (run true (genesis [1, 9, 17, 25]) cx4) 50 .endBlock).vault = [0, 8, 16, 24] := by
   refine ⟨⟨[1, 9, 17, 25], cx4, by decide, rfl⟩, ?_⟩
   decide
-
-/-- proposal listing K0 twice: canonical string 0 and another encoding of the same key, string 2 -/
-def cx5 : List (Int × Op) :=
-  [ opSubmit 10 0 [0, 2, 8, 16] 1, opVote 20 0 0 1 2, opVote 20 1 1 1 2, opVote 20 2 2 1 2 ]
 
 /-- C14.X5  Code as it is, the vault after a change may hold one key twice: duplicates are removed by
     comparing trimmed strings, and one key has many PEM encodings. The patched model rejects the proposal. -/
